@@ -113,6 +113,10 @@ def cases(ctx):
         srcs.append(s); tags.append("special")
     for s in gen_lang.FAULTY:
         srcs.append(s); tags.append("faulty")
+    # closures assigning to captured variables, also re-entrantly (an earlier activation of the same closure object still
+    # running): through the reference semantics too — it must not commit where the documents are silent
+    for s in c02.CORE_CLOS_FIXED:
+        srcs.append("let obs = [];\n" + s + "0\n"); tags.append("closure-fixed")
     for s in gen_lang.programs(rng, ctx.scale(1000, 60000), max_stmts=8):
         srcs.append(s); tags.append("generated")
     lines = lang_lines(ctx, srcs)
